@@ -37,7 +37,7 @@ MODES = [
     ("check", ["--check"]), ("json", ["--emit", "json"]), ("checkstyle", ["--emit", "checkstyle"]),
 ]
 KINDS = ["unclosed", "stray", "lexer", "truncate", "recoverable", "recoverable", "badutf8", "missing", "ambiguous", "dirforfile",
-         "open-errno", "read-errno", "badconfig", "configpath", "noroot", "panic", "write-fault"]
+         "open-errno", "read-errno", "badconfig", "configpath", "noroot", "panic", "write-fault", "stashed", "stashed"]
 PANIC_SITES = ["parse_crate_mod", "parse_file_as_module", "parser_new"]
 
 
@@ -84,7 +84,7 @@ def generate(rng, tier):
             cfg += "max_width = %d\n" % rng.choice([60, 80, 100])
         bases = [os.path.basename(f) for f in trees[i]["reach"]]
         cands = [f for f in trees[i]["reach"][1:] if os.path.basename(f) != "mod.rs" and bases.count(os.path.basename(f)) == 1]
-        if cands and rng.chance(60 if kind == "recoverable" else 25):
+        if cands and rng.chance(60 if kind in ("recoverable", "stashed") else 25):
             g = rng.choice(cands)
             cfg += 'ignore = ["%s"]\n' % os.path.basename(g)
             ignored[str(i)] = g
@@ -168,6 +168,9 @@ def apply_fault(case, world, vi, pos):
         files[pos] = txt + 'fn y() { let s = "unterminated; }\n'
     elif kind == "truncate":
         files[pos] = txt + "impl Z { fn t(&self) { if a {"
+    elif kind == "stashed":
+        # errors the parser recovers from and reports late (they are held back, not emitted on the spot)
+        files[pos] = txt + ["const STASHED = 1;\n", "fn st() { let a = x.foo::<u32>; }\n", "fn st<'1a>() {}\n"][sub % 3]
     elif kind == "recoverable":
         files[pos] = txt + "fn rec() { let _ = %s; }\n" % ["0b13", "0o9", "1e", "0b12_u8"][sub % 4]
     elif kind == "badutf8":
